@@ -18,6 +18,15 @@ import (
 	"golang.org/x/tools/go/ssa/ssautil"
 )
 
+// droppedHarness: harness files left out of this run because they do not compile against the tree (base name -> first error)
+var droppedHarness = map[string]string{}
+
+// isPropertyHarness: zz_verif_c<NN>*.go hold the harnesses of one property; the shared runtime, utility
+// and transport files are never dropped
+func isPropertyHarness(base string) bool {
+	return strings.HasPrefix(base, "zz_verif_c") && len(base) > 11 && base[10] >= '0' && base[10] <= '9'
+}
+
 const repoModule = "github.com/fiorix/go-diameter/v4"
 
 type Program struct {
@@ -71,18 +80,43 @@ func LoadProgram(repoDir, harnessDir string, patterns []string) (*Program, error
 		Overlay: overlay,
 		Env:     append(os.Environ(), "GOFLAGS=-mod=mod", "GOPROXY=off", "GOSUMDB=off", "GOTOOLCHAIN=local", "CGO_ENABLED=0"),
 	}
-	initial, err := packages.Load(cfg, patterns...)
-	if err != nil {
-		return nil, err
-	}
-	var errs []string
-	packages.Visit(initial, nil, func(p *packages.Package) {
-		for _, e := range p.Errors {
-			errs = append(errs, e.Error())
+	// A harness file that no longer compiles against the tree under test (it reaches into unexported
+	// parts of the package, which a refactoring may rename) is dropped, together with the files that
+	// depend on it, so that the other properties' harnesses keep working; the property whose harness
+	// was dropped reports inconclusive with the compile error.
+	var initial []*packages.Package
+	for round := 0; ; round++ {
+		var err error
+		initial, err = packages.Load(cfg, patterns...)
+		if err != nil {
+			return nil, err
 		}
-	})
-	if len(errs) > 0 {
-		return nil, fmt.Errorf("load errors:\n%s", strings.Join(errs, "\n"))
+		var errs []string
+		dropped := false
+		packages.Visit(initial, nil, func(p *packages.Package) {
+			for _, e := range p.Errors {
+				errs = append(errs, e.Error())
+				file := e.Pos
+				if i := strings.Index(file, ".go:"); i >= 0 {
+					file = file[:i+3]
+				}
+				base := filepath.Base(file)
+				if _, isOverlay := overlay[file]; isOverlay && isPropertyHarness(base) && round < 12 {
+					delete(overlay, file)
+					if _, seen := droppedHarness[base]; !seen {
+						droppedHarness[base] = e.Error()
+					}
+					dropped = true
+				}
+			}
+		})
+		if len(errs) == 0 {
+			break
+		}
+		if !dropped {
+			return nil, fmt.Errorf("load errors:\n%s", strings.Join(errs, "\n"))
+		}
+		cfg.Overlay = overlay
 	}
 	prog, _ := ssautil.AllPackages(initial, ssa.InstantiateGenerics)
 	prog.Build()
